@@ -54,9 +54,14 @@ Definition is_ok (res : list Z) : bool := match res with [0%Z] => true | _ => fa
 Definition res_is (n : Z) (res : list Z) : bool := match res with [x] => Z.eqb x n | _ => false end.
 
 Definition meta_same (s s' : shard) : bool := list_eqb N.eqb (enc_state (sh_meta s)) (enc_state (sh_meta s')).
-Definition known_data_same (s s' : shard) : bool :=
-  forallb (fun a => negb (stored_at (sh_meta s) (fst a) (snd a)) ||
+(* data of every address other than the refused object's own one (put_no_effect of GC/C07Proofs.v: Shard.Put
+   drops the data it has just written unless Exists(addr) answers (true, nil) -- which it does not for an
+   ID that is stored but garbage-marked) *)
+Definition known_data_same (own : cid * oid) (s s' : shard) : bool :=
+  forallb (fun a => addr_eqb a own ||
                     Bool.eqb (blob_has (sh_blob s) (fst a) (snd a)) (blob_has (sh_blob s') (fst a) (snd a))) g_addrs.
+
+Definition cgc_of (m : state) (c : cid) : bool := match sm_get c (cnrs m) with Some b => cgc b | None => false end.
 
 (* the put proceeds to the association checks: its own ID is not stored, carries no removal mark *)
 Definition fresh_id (m : state) (c : cid) (x : oid) : bool :=
@@ -70,7 +75,7 @@ Definition c07_tombstone (s : shard) (o : sop) (res : list Z) (s' : shard) : boo
   match is_assoc_put TTombstone o with
   | Some (c, t, x) =>
       if locked_at (sh_meta s) (epoch (sh_meta s)) c x then
-        (negb (is_ok res) || stored_at (sh_meta s) c t) && meta_same s s' && known_data_same s s' &&
+        (negb (is_ok res) || stored_at (sh_meta s) c t) && meta_same s s' && known_data_same (c, t) s s' &&
         (if fresh_id (sh_meta s) c t &&
             match type_at (sh_meta s) c x with Some TTombstone | Some TLock => false | _ => true end
          then res_is 3 res else true)
@@ -90,8 +95,8 @@ Definition c07_keeps (s : shard) (o : sop) (s' : shard) : bool :=
 Definition c07_lock_after_tomb (s : shard) (o : sop) (res : list Z) (s' : shard) : bool :=
   match is_assoc_put TLock o with
   | Some (c, l, x) =>
-      if tombstoned_at (sh_meta s) c x then
-        (negb (is_ok res) || stored_at (sh_meta s) c l) && meta_same s s' && known_data_same s s' &&
+      if tombstoned_at (sh_meta s) c x && negb (cgc_of (sh_meta s) c) then
+        (negb (is_ok res) || stored_at (sh_meta s) c l) && meta_same s s' && known_data_same (c, l) s s' &&
         (if fresh_id (sh_meta s) c l then res_is 1 res || res_is 4 res else true)
       else true
   | None => true
@@ -100,10 +105,10 @@ Definition c07_lock_after_tomb (s : shard) (o : sop) (res : list Z) (s' : shard)
 Definition c07_lock_not_tombstonable (s : shard) (o : sop) (res : list Z) (s' : shard) : bool :=
   match is_assoc_put TTombstone o with
   | Some (c, t, x) =>
-      match type_at (sh_meta s) c x with
-      | Some TLock => (negb (is_ok res) || stored_at (sh_meta s) c t) && meta_same s s' && known_data_same s s' &&
-                      (if fresh_id (sh_meta s) c t then res_is 5 res else true)
-      | _ => true
+      match type_at (sh_meta s) c x, cgc_of (sh_meta s) c with
+      | Some TLock, false => (negb (is_ok res) || stored_at (sh_meta s) c t) && meta_same s s' && known_data_same (c, t) s s' &&
+                             (if fresh_id (sh_meta s) c t then res_is 5 res else true)
+      | _, _ => true
       end
   | None => true
   end.
@@ -124,6 +129,16 @@ Definition c44_final (sd sf : shard) : list nat :=
   (if forallb (fun a => negb (should_go (sh_meta sd) (epoch (sh_meta sd)) (fst a) (snd a)) || gone sf (fst a) (snd a)) g_addrs
    then [] else [61%nat]).
 
+(* the premises of C44_eventually_partial that are not proved for reachable states, checked on every replayed state:
+   a stored tombstoned object carries a garbage key; no data without metadata *)
+Definition ts_inv_b (m : state) : bool :=
+  forallb (fun cb : cid * cstate =>
+             forallb (fun kv : oid * entry => negb (tombstoned (snd cb) (fst kv)) || sm_mem (fst kv) (garb (snd cb))) (objs (snd cb)))
+          (cnrs m).
+Definition blob_sub_b (s : shard) : bool := forallb (fun a : addr => stored_at (sh_meta s) (fst a) (snd a)) (sh_blob s).
+Definition c44_step (s' : shard) : list nat :=
+  (if ts_inv_b (sh_meta s') then [] else [62%nat]) ++ (if blob_sub_b s' then [] else [63%nat]).
+
 Fixpoint ref_ghist (lim : nat) (drain : nat) (h k : nat) (s : shard) (sd : option shard) (l : list gstep) : list N :=
   match l with
   | [] => match sd with
@@ -133,7 +148,7 @@ Fixpoint ref_ghist (lim : nat) (drain : nat) (h k : nat) (s : shard) (sd : optio
   | st :: r =>
       let sd' := match sd with Some d => Some d | None => if Nat.eqb k drain then Some s else None end in
       let '(s', _) := sstep lim s (gs_op st) in
-      map (code h k) (c07_step s (gs_op st) (gs_res st) s') ++
+      map (code h k) (c07_step s (gs_op st) (gs_res st) s') ++ map (code h k) (c44_step s') ++
       ref_ghist lim drain h (S k) s' sd' r
   end.
 
